@@ -16,7 +16,7 @@ TRUSTED = ['CPython inspect / functools.wraps semantics']
 
 
 def cases(rng, tier):
-    n = 1500 if tier == 'quick' else 12000
+    n = 1200 if tier == 'quick' else 12000
     return C.build_cases(rng, n, calls_per=3, style='kw', tag='c04a') + C.build_cases(rng, n // 4, calls_per=2, style=None, tag='c04b') \
         + C.scenario_cases(rng, n // 8, style='kw', tag='c04sc') \
         + C.context_clash_cases(rng, 24 if tier == 'quick' else 96) \
